@@ -244,4 +244,80 @@ theorem mem_lhs_iff (y : Sym) (ss : List St) : y ∈ lhs ss ↔ assignedIn y ss 
         · exact Or.inr h
     | ode a r => simp only [lhs, assignedIn_cons_ode, ih]
 
+/-! ### environments that agree off one symbol -/
+
+theorem exec_agree_off {α : Type} (I : Interp α) (s : St) (x : Sym) (hx : x ∉ s.reads)
+    (ρ ρ' : Env α) (h : ∀ y, y ≠ x → ρ y = ρ' y) :
+    ∀ y, y ≠ x → s.exec I ρ y = s.exec I ρ' y := by
+  intro y hy
+  cases s with
+  | assign z e =>
+    have he : eval I ρ e = eval I ρ' e :=
+      Expr.eval_congr I ρ ρ' e (fun w hw => h w (fun hh => hx (by simpa [St.reads, hh] using hw)))
+    simp only [St.exec, Env.set, he]
+    by_cases hz : y = z
+    · simp [hz]
+    · simp [hz, h y hy]
+  | ode a r =>
+    have hr : r.map (eval I ρ) = r.map (eval I ρ') := by
+      apply List.map_congr_left
+      intro e he
+      apply Expr.eval_congr
+      intro w hw
+      apply h w
+      intro hh
+      apply hx
+      simp only [St.reads, List.mem_flatMap]
+      exact ⟨e, he, hh ▸ hw⟩
+    simp only [St.exec, hr]
+    by_cases hya : y ∈ a
+    · simp [hya]
+    · simp [hya, h y hy]
+
+theorem run_agree_off {α : Type} (I : Interp α) (x : Sym) :
+    ∀ (ss : List St) (ρ ρ' : Env α), (∀ s ∈ ss, x ∉ s.reads) → (∀ y, y ≠ x → ρ y = ρ' y) →
+      ∀ y, y ≠ x → run I ss ρ y = run I ss ρ' y := by
+  intro ss
+  induction ss with
+  | nil => intro ρ ρ' _ h; simpa [run_nil] using h
+  | cons s ss ih =>
+    intro ρ ρ' hs h
+    rw [run_cons, run_cons]
+    exact ih _ _ (fun t ht => hs t (List.mem_cons_of_mem _ ht))
+      (exec_agree_off I s x (hs s (by simp)) ρ ρ' h)
+
+/-! ### constant substitutions -/
+
+theorem constSub_get (d : List (Sym × Int)) (y : Sym) (t : Expr) (h : (constSub d).get y = some t) :
+    ∃ c, t = .lit c ∧ (y, c) ∈ d := by
+  induction d with
+  | nil => simp [constSub, Sub.get] at h
+  | cons p d ih =>
+    obtain ⟨k, c⟩ := p
+    simp only [constSub, List.map_cons, Sub.get] at h
+    by_cases hy : y = k
+    · simp only [hy, ↓reduceIte, Option.some.injEq] at h
+      exact ⟨c, h.symm, by simp [hy]⟩
+    · simp only [hy, ↓reduceIte] at h
+      obtain ⟨c', hc, hm⟩ := ih h
+      exact ⟨c', hc, List.mem_cons_of_mem _ hm⟩
+
+/-! ### renaming -/
+
+theorem eval_renameE {α : Type} (I : Interp α) (r : Sym → Sym) (ρ' : Env α) (e : Expr) :
+    eval I ρ' (renameE r e) = eval I (fun y => ρ' (r y)) e := by
+  induction e with
+  | lit n => simp [renameE, eval]
+  | sym s => simp [renameE, eval]
+  | f1 f a ih => simp [renameE, eval, ih]
+  | f2 f a b iha ihb => simp [renameE, eval, iha, ihb]
+  | f3 f a b c iha ihb ihc => simp [renameE, eval, iha, ihb, ihc]
+
+/-! ### backwards expansion (get_observation_expression) -/
+
+theorem expandBack_none (pre : List St) : pre.foldr expandStep (none : Option Expr) = none := by
+  induction pre with
+  | nil => rfl
+  | cons s pre ih => simp only [List.foldr, ih]; cases s <;> rfl
+
 end Pharmpy.C07
